@@ -628,37 +628,43 @@ Qed.
 (* ---------- one label, a whole run ---------- *)
 Lemma step_core_WF y l ch y' evs : step_core y l ch = (y', evs) -> WF y -> WF y'.
 Proof.
-  intros H Hwf. destruct l as [s|s sid data|s sid k|s|s sid|s|s c|c|d]; cbv beta iota zeta delta [step_core] in H.
-  - eapply open_stream_WF; eauto.
-  - eapply stream_write_WF; eauto.
-  - destruct (has_pending_read _ _ _); [injection H as <- <-; exact Hwf|].
+  intros H Hwf. destruct l as [s|s sid data|s sid k|s|s sid|s|s c|c|d].
+  - rewrite step_core_open in H. eapply open_stream_WF; eauto.
+  - rewrite step_core_write in H. eapply stream_write_WF; eauto.
+  - rewrite step_core_read in H.
+    destruct (has_pending_read _ _ _); [injection H as <- <-; exact Hwf|].
     destruct (try_read y s sid k) as [[[y1 rc] dd]|] eqn:Et; injection H as <- <-; [eapply try_read_WF; eauto|exact Hwf].
-  - destruct (se_closed (sess y s)); [injection H as <- <-; exact Hwf|].
+  - rewrite step_core_accept in H.
+    destruct (se_closed (sess y s)); [injection H as <- <-; exact Hwf|].
     destruct (try_accept y s) as [[[y1 rc] id]|] eqn:Et; [injection H as <- <-; eapply try_accept_WF; eauto|].
     destruct (has_pending_accept _ _); injection H as <- <-; exact Hwf.
-  - destruct (close_stream y s sid true ch) as [[[y1 ch1] e1] rc] eqn:Ec. injection H as <- <-. eapply close_stream_WF; eauto.
-  - destruct (session_close y s ch) as [[[y1 ch1] e1] rc] eqn:Ec. injection H as <- <-. eapply session_close_WF; eauto.
-  - destruct (nthN (N.to_nat c) (sy_conns y)) as [cn|] eqn:En; [|injection H as <- <-; exact Hwf].
+  - rewrite step_core_close_stream in H.
+    destruct (close_stream y s sid true ch) as [[[y1 ch1] e1] rc] eqn:Ec. injection H as <- <-. eapply close_stream_WF; eauto.
+  - rewrite step_core_close_session in H.
+    destruct (session_close y s ch) as [[[y1 ch1] e1] rc] eqn:Ec. injection H as <- <-. eapply session_close_WF; eauto.
+  - rewrite step_core_deliver in H.
+    destruct (nthN (N.to_nat c) (sy_conns y)) as [cn|] eqn:En; [|injection H as <- <-; exact Hwf].
     destruct (_ || _); [injection H as <- <-; exact Hwf|].
     destruct (conn_q cn s) as [|fr q] eqn:Eq.
     + destruct (conn_closed_end cn (other s)); [|injection H as <- <-; exact Hwf].
       destruct (deplex_error y s c) as [y1 e1] eqn:Ed. injection H as <- <-. eapply deplex_error_WF; eauto.
-    + set (y1 := set_conns y _) in H.
-      destruct (recv_frame y1 s fr ch) as [[y2 ch2] e2] eqn:Er. injection H as <- <-.
-      eapply recv_frame_WF; [exact Er|]. unfold y1. apply WF_set_conns; [exact Hwf|].
+    + destruct (recv_frame _ s fr ch) as [[y2 ch2] e2] eqn:Er. injection H as <- <-.
+      eapply recv_frame_WF; [exact Er|]. apply WF_set_conns; [exact Hwf|].
       destruct (conn_set_q_flags cn s q) as (Ha & Hb & _).
       eapply conns_mono_setN; [exact En|rewrite Ha; auto|rewrite Hb; auto].
-  - destruct (nthN (N.to_nat c) (sy_conns y)) as [cn|] eqn:En; [|injection H as <- <-; exact Hwf].
-    set (y0 := set_conns y _) in H.
-    assert (Hwf0 : WF y0).
-    { unfold y0. apply WF_set_conns; [exact Hwf|]. eapply conns_mono_setN; [exact En|cbn; auto|cbn; auto]. }
-    destruct (if conn_closed_end cn SA || c_failed cn then (y0, []) else deplex_error y0 SA c) as [y1 e1] eqn:E1.
+  - rewrite step_core_fail in H.
+    destruct (nthN (N.to_nat c) (sy_conns y)) as [cn|] eqn:En; [|injection H as <- <-; exact Hwf].
+    cbv zeta in H.
+    assert (Hwf0 : WF (set_conns y (setN (N.to_nat c) (mkC [] [] (c_clA cn) (c_clB cn) true) (sy_conns y)))).
+    { apply WF_set_conns; [exact Hwf|]. eapply conns_mono_setN; [exact En|cbn; auto|cbn; auto]. }
+    destruct (if conn_closed_end cn SA || c_failed cn then _ else _) as [y1 e1] eqn:E1.
     assert (Hwf1 : WF y1).
     { destruct (conn_closed_end cn SA || c_failed cn); [injection E1 as <- <-; exact Hwf0|eapply deplex_error_WF; eauto]. }
-    destruct (if conn_closed_end cn SB || c_failed cn then (y1, []) else deplex_error y1 SB c) as [y2 e2] eqn:E2.
+    destruct (if conn_closed_end cn SB || c_failed cn then _ else _) as [y2 e2] eqn:E2.
     injection H as <- <-.
     destruct (conn_closed_end cn SB || c_failed cn); [injection E2 as <- <-; exact Hwf1|eapply deplex_error_WF; eauto].
-  - destruct (fire_timers 64 (set_now y (sy_now y + d)%Z) SA ch) as [[y1 ch1] e1] eqn:E1.
+  - rewrite step_core_tick in H.
+    destruct (fire_timers 64 (set_now y (sy_now y + d)%Z) SA ch) as [[y1 ch1] e1] eqn:E1.
     destruct (fire_timers 64 y1 SB ch1) as [[y2 ch2] e2] eqn:E2. injection H as <- <-.
     eapply fire_timers_WF; [exact E2|]. eapply fire_timers_WF; [exact E1|]. exact Hwf.
 Qed.
@@ -718,7 +724,7 @@ Proof.
   unfold rb_read in H. destruct (pipe (st_rb st)); [|discriminate].
   destruct (pclosed (st_rb st)) eqn:Ep; [discriminate|].
   destruct (se_closed (sess y s)) eqn:Ecl; [|reflexivity].
-  specialize (Hc eq_refl _ _ El). congruence.
+  specialize (Hc Ecl _ _ El). congruence.
 Qed.
 Lemma try_accept_None_open y s : try_accept y s = None -> se_closed (sess y s) = false.
 Proof. unfold try_accept. destruct (se_acceptq _); [|discriminate]. destruct (se_closed _); [discriminate|reflexivity]. Qed.
@@ -887,15 +893,14 @@ Proof.
   destruct (resolve (sy_pend y1) y1) as [[y2 ps] e2] eqn:Er. injection H as <- <-.
   rewrite sess_set_pend.
   destruct (resolve_kept_open _ _ _ _ _ Er (step_core_WF _ _ _ _ _ Ec Hwf)) as [I1 _]. rewrite I1.
-  cbv beta iota zeta delta [step_core] in Ec. rewrite En, Hnf in Ec. rewrite !orb_false_r in Ec.
-  set (y0 := set_conns y _) in Ec.
-  destruct (if conn_closed_end cn SA then (y0, []) else deplex_error y0 SA c) as [ya ea] eqn:Ea.
-  destruct (if conn_closed_end cn SB then (ya, []) else deplex_error ya SB c) as [yb eb] eqn:Eb.
+  rewrite step_core_fail in Ec. rewrite En, Hnf in Ec. rewrite !orb_false_r in Ec. cbv zeta in Ec.
+  destruct (if conn_closed_end cn SA then _ else _) as [ya ea] eqn:Ea.
+  destruct (if conn_closed_end cn SB then _ else _) as [yb eb] eqn:Eb.
   injection Ec as <- <-.
   destruct s.
   - rewrite Hopen in Ea. pose proof (deplex_error_closed _ _ _ _ _ Ea) as Hca.
     destruct (conn_closed_end cn SB); [injection Eb as <- <-; exact Hca|].
-    apply deplex_error_other in Eb. cbn in Eb. rewrite Eb. exact Hca.
+    apply deplex_error_other in Eb. cbn [other] in Eb. rewrite Eb. exact Hca.
   - rewrite Hopen in Eb. eapply deplex_error_closed; eauto.
 Qed.
 
@@ -969,13 +974,13 @@ Proof.
   destruct (resolve (sy_pend y1) y1) as [[y2 ps] e2] eqn:Er. cbn in Hcl. rewrite sess_set_pend in Hcl.
   pose proof (reach_WF k sp u ta tb ls) as Hwf. fold y in Hwf.
   destruct (resolve_kept_open _ _ _ _ _ Er (step_core_WF _ _ _ _ _ Ec Hwf)) as [I1 _]. rewrite I1 in Hcl.
-  cbv beta iota zeta delta [step_core] in Ec.
+  rewrite step_core_tick in Ec.
   destruct (fire_timers 64 (set_now y (sy_now y + d)%Z) SA ch) as [[ya cha] ea] eqn:Ea.
   destruct (fire_timers 64 ya SB cha) as [[yb chb] eb] eqn:Eb. injection Ec as <- <-.
   destruct s.
-  - pose proof (fire_timers_other _ _ _ _ _ _ _ Eb) as Hoth. cbn in Hoth. rewrite Hoth in Hcl.
+  - pose proof (fire_timers_other _ _ _ _ _ _ _ Eb) as Hoth. cbn [other] in Hoth. rewrite Hoth in Hcl.
     pose proof (fire_timers_idle _ _ _ _ _ _ _ Ea) as Hidle. rewrite !sess_set_now in Hidle. apply Hidle; assumption.
-  - pose proof (fire_timers_other _ _ _ _ _ _ _ Ea) as Hoth. cbn in Hoth. rewrite sess_set_now in Hoth.
+  - pose proof (fire_timers_other _ _ _ _ _ _ _ Ea) as Hoth. cbn [other] in Hoth. rewrite sess_set_now in Hoth.
     pose proof (fire_timers_idle _ _ _ _ _ _ _ Eb) as Hidle. rewrite Hoth in Hidle. apply Hidle; assumption.
 Qed.
 
